@@ -12,12 +12,13 @@ from . import lib_thermo as L
 from . import c05 as C5
 
 PROPS = ['PGA.Props.C06']
-GEN = []
+GEN = ['ThermoRanges']
 OBLIGATIONS = ['PGA.Thermo.' + t for t in [
     'C06_range_is_intersection', 'C06_range_sup_inf', 'C06_range_none_iff', 'C06_range_order_independent',
     'C06_empty_intersection_rejected', 'C06_table_outside_errors', 'C06_nonpositive_T_rejected',
     'C06_correlation_outside_errors', 'C06_correlation_outside_signalled', 'C06_estimate_outside_signalled',
-    'C06_table_inside_value', 'C06_estimate_inside_value', 'F27_unsignalled_before_repair']]
+    'C06_table_inside_value', 'C06_estimate_inside_value', 'C06_tab_shipped_ranges', 'C06_tab_shipped_ranges_spec',
+    'F27_unsignalled_before_repair']]
 RULE = ('cases = (correlation or estimate, temperature, property) triples. Correlations: ThermochemRawData / Incomplete / Group, with '
         'and without Cp data (tables of 1..8 points), with / without reference values, range present / absent / degenerate, T_ref '
         'inside, at the ends of and (without Cp data) outside the range; estimates: 1..6 constituents with different, nested, '
@@ -69,9 +70,6 @@ def oracle_single(ctx, spec, T, outs, inp):
                 ctx.violation('a correlation with Cp data returns a value outside its range (warning only)',
                               dict(inp, property=w), expected='error', observed=o)
         else:
-            positive = rng is None or rng[0] > 0
-            if not positive:
-                continue
             if has_data(spec, w):
                 if 'ok' not in o:
                     ctx.violation('in-range evaluation does not return a finite number', dict(inp, property=w),
@@ -248,8 +246,6 @@ def oracle_estimate(ctx, specs, counts, er, T, outs, inp):
                 ctx.violation('an estimate returns a value although a constituent with Cp data is outside its range',
                               dict(inp, property=w), expected='error', observed=o)
         else:
-            if any(sp['range'] is not None and sp['range'][0] <= 0 for sp in specs) or T <= 0:
-                continue
             if all(has_data(sp, w) for sp in specs):
                 if cp_outside:
                     continue      # a constituent with Cp data but no declared range, outside its table: error is legitimate
@@ -451,6 +447,43 @@ def run(ctx):
     compare(ctx, batch)
 
 
+def targeted_shipped(ctx, batch):
+    """search step after a broken table obligation (C06_tab_shipped_ranges): the shipped groups whose range is missing,
+    reaches T <= 0, or does not contain T_ref / the table, evaluated at every bound neighbour"""
+    for name in C5.library_names():
+        try:
+            lib = C5.load_library(name)
+        except Exception as e:
+            ctx.violation('shipped library does not load', {'library': name}, 'loads', repr(e)[:300])
+            continue
+        for g, ps in lib.contents.items():
+            th = ps.get('thermochem')
+            if th is None:
+                continue
+            spec, qdata = C5.spec_of_object(th)
+            r = spec['range']
+            ts = [p[0] for p in spec['pts']]
+            okrow = (r is not None and 0 < r[0] <= r[1] and r[0] <= spec['tref'] <= r[1]
+                     and (not ts or (r[0] <= min(ts) and max(ts) <= r[1])))
+            if okrow:
+                continue
+            ctx.count('targeted_shipped_groups')
+            temps = single_temps(ctx.rng, spec) + [0.0]
+            for T in temps:
+                outs = {w: L.eval_impl(th, w, T, ctx.count) for w in L.WHICH}
+                ctx.case(('targeted', name, str(g), T))
+                if qdata:
+                    outs = {w: o for w, o in outs.items() if o.get('err') not in C5.F12_ERRORS}
+                oracle_single(ctx, spec, T, outs, {'library': name, 'group': str(g), 'spec': spec, 'T': T})
+
+
+def search(ctx):
+    batch = []
+    targeted_shipped(ctx, batch)
+    if not ctx.violations:
+        run(ctx)
+
+
 def replay(ctx, rec):
     inp = rec.get('input', rec)
     before = len(ctx.violations)
@@ -467,6 +500,18 @@ def replay(ctx, rec):
         names.sort(key=lambda g: inp['groups'].index(str(g)))
         specs = [C5.spec_of_object(lib[g]['thermochem'])[0] for g in names]
         check_estimate(ctx, specs, inp['counts'], batch, ('replay',), lib=lib, names=names, where={'library': inp['library'], 'groups': inp['groups']})
+    elif 'library' in inp and 'group' in inp:
+        lib = C5.load_library(inp['library'])
+        for g, ps in lib.contents.items():
+            if str(g) == inp['group'] and 'thermochem' in ps:
+                th = ps['thermochem']
+                spec, qdata = C5.spec_of_object(th)
+                T = inp.get('T', spec['tref'])
+                for t in (T if isinstance(T, list) else [T]):
+                    outs = {w: L.eval_impl(th, w, float(t), ctx.count) for w in L.WHICH}
+                    if qdata:
+                        outs = {w: o for w, o in outs.items() if o.get('err') not in C5.F12_ERRORS}
+                    oracle_single(ctx, spec, float(t), outs, dict(inp, T=float(t)))
     elif 'constituents' in inp:
         check_estimate(ctx, inp['constituents'], inp['counts'], batch, ('replay',))
     else:
